@@ -8,6 +8,7 @@ package server
 import (
 	"fmt"
 	"os"
+	"runtime"
 	"strings"
 	"testing"
 	"testing/synctest"
@@ -146,31 +147,43 @@ func c12Run(t *testing.T, p c12Plan) (res vfResult) {
 		for gi, group := range p.Groups {
 			base := m.clone()
 			results := make([]vfCmdResult, len(group))
-			for ci, c := range group {
-				ci, c := ci, c
+			started := 0
+			startNext := func() {
+				ci, c := started, group[started]
+				started++
 				sc.spawn(fmt.Sprintf("g%dc%d", gi, ci), func() { results[ci] = vfExec(w, r, c) })
 			}
+			startNext()
 			for guard := 0; ; guard++ {
-				synctest.Wait()
+				quiescent := c12Settle(r, sc)
 				parked := sc.parkedActors()
 				var pending, done []vfCmd
 				allDone := true
 				for ci, c := range group {
-					if sc.isFinished(fmt.Sprintf("g%dc%d", gi, ci)) {
+					if ci < started && sc.isFinished(fmt.Sprintf("g%dc%d", gi, ci)) {
 						done = append(done, c)
 					} else {
-						pending = append(pending, c)
+						if ci < started {
+							pending = append(pending, c)
+						}
 						allDone = false
 					}
 				}
 				if allDone {
 					break
 				}
-				if guard > 500 {
+				if guard > 5000 {
 					res.failf("command-hangs", "group %d never finished (parked=%v)", gi, parked)
 					return
 				}
 				if len(parked) == 0 {
+					if !quiescent {
+						continue // somebody still holds the snapshot lock and has not parked yet: look again
+					}
+					if started < len(group) {
+						startNext()
+						continue
+					}
 					time.Sleep(100 * time.Millisecond) // somebody waits on a timer (failing deploy)
 					continue
 				}
@@ -199,30 +212,58 @@ func c12Run(t *testing.T, p c12Plan) (res vfResult) {
 					res.failf(sig, "a kill while %v (group %d: %v) would leave a state file that is not a complete snapshot of a configuration in force: %s", where, gi, group, why)
 					return
 				}
-				// once in a while: does a fresh proxy really start from these bytes?
-				if restoreProbe < 2 && nextChoice()%3 == 0 {
+				// does a fresh proxy really start from what a kill here leaves in the data directory (the state file
+				// and whatever sits next to it)? Always inside a write, now and then elsewhere.
+				inside := false
+				for _, a := range parked {
+					if pt := sc.parkedAt(a); pt == "snapshot.created" || pt == "snapshot.written" {
+						inside = true
+					}
+				}
+				if (inside && restoreProbe < 6) || (restoreProbe < 2 && nextChoice()%3 == 0) {
 					restoreProbe++
-					if b, err := os.ReadFile(r.statePath); err == nil {
-						np := w.statePath(fmt.Sprintf("crash%d", crashPoints))
-						os.WriteFile(np, b, 0o644)
-						// restoring must not park at the hooks
-						sc.mu.Lock()
-						sc.off = true
-						sc.mu.Unlock()
-						nr := NewRouter(np)
-						w.adopt(nr)
-						rerr := nr.RestoreLastSavedState()
-						sc.mu.Lock()
-						sc.off = false
-						sc.mu.Unlock()
-						if rerr != nil {
-							res.failf("crash-point-restore-fails", "a kill while %v leaves a file the next start cannot restore: %v", where, rerr)
-							return
+					img := fmt.Sprintf("%s/crash%d", w.dir, crashPoints)
+					os.Mkdir(img, 0o755)
+					ents, _ := os.ReadDir(w.dir)
+					for _, e := range ents {
+						if !e.IsDir() && strings.HasPrefix(e.Name(), "r.state") {
+							if b, err := os.ReadFile(w.dir + "/" + e.Name()); err == nil {
+								os.WriteFile(img+"/"+e.Name(), b, 0o644)
+							}
 						}
-						gotList := map[string]string{}
+					}
+					sc.mu.Lock()
+					sc.off = true // restoring must not park at the hooks
+					sc.mu.Unlock()
+					var gotLists []map[string]string
+					var rerr error
+					for start := 0; start < 2 && rerr == nil; start++ { // the next start, and the one after it
+						nr := NewRouter(img + "/r.state")
+						rerr = nr.RestoreLastSavedState()
+						gl := map[string]string{}
 						for n, row := range vfRealList(nr) {
-							gotList[n] = row.Target + "|" + row.State
+							gl[n] = row.Target + "|" + row.State
 						}
+						gotLists = append(gotLists, gl)
+						names := []string{}
+						for n := range gl {
+							names = append(names, n)
+						}
+						nr.withWriteLock(func() error { // the restarted process goes away again (without rewriting the image)
+							for _, n := range names {
+								nr.services.Get(n).Dispose()
+							}
+							return nil
+						})
+					}
+					sc.mu.Lock()
+					sc.off = false
+					sc.mu.Unlock()
+					if rerr != nil {
+						res.failf("crash-point-restore-fails", "a kill while %v leaves a data directory the next start cannot restore: %v", where, rerr)
+						return
+					}
+					for gi2, gotList := range gotLists {
 						match := false
 						for mask := 0; mask < 1<<len(pending); mask++ {
 							mm := cur.clone()
@@ -240,11 +281,11 @@ func c12Run(t *testing.T, p c12Plan) (res vfResult) {
 							}
 						}
 						if !match {
-							res.failf("crash-point-restore-differs", "a proxy restored from the file left by a kill while %v lists %v, none of the configurations in force", where, gotList)
+							res.failf("crash-point-restore-differs", "start #%d after a kill while %v lists %v, none of the configurations in force", gi2+1, where, gotList)
 							return
 						}
-						res.label("restored-from-crash-point")
 					}
+					res.label("restored-from-crash-image")
 				}
 				// An actor waiting to begin its snapshot may only go ahead while nobody holds the snapshot lock:
 				// otherwise it would block on a mutex, which the bubble cannot see as idle. (If the lock were not
@@ -263,7 +304,17 @@ func c12Run(t *testing.T, p c12Plan) (res vfResult) {
 					res.failf("harness", "every parked actor waits for the snapshot lock, nobody holds it: %v", where)
 					return
 				}
-				sc.release(movable[nextChoice()%len(movable)])
+				// starting the next command of the group is a move too: a later command may run to completion while
+				// an earlier one sits between two steps of its snapshot
+				nmoves := len(movable)
+				if started < len(group) {
+					nmoves++
+				}
+				if k := nextChoice() % nmoves; k < len(movable) {
+					sc.release(movable[k])
+				} else {
+					startNext()
+				}
 			}
 			for ci, c := range group {
 				want := m.apply(c)
@@ -303,6 +354,30 @@ func c12Run(t *testing.T, p c12Plan) (res vfResult) {
 		res.label(fmt.Sprintf("crash-points:%d", min(crashPoints/10*10, 50)))
 	})
 	return res
+}
+
+// c12Settle waits until the actors have gone as far as they can. While nobody holds the snapshot lock this is
+// plain quiescence; while a parked actor holds it, others may be blocked on that mutex - which a bubble never
+// counts as idle - so the wait is a bounded number of yields instead.
+func c12Settle(r *Router, sc *vfSched) (quiescent bool) {
+	for spins := 0; spins < 200000; spins++ {
+		if r.snapshotLock.TryLock() {
+			r.snapshotLock.Unlock()
+			synctest.Wait()
+			return true
+		}
+		holderParked := false
+		for _, a := range sc.parkedActors() {
+			if pt := sc.parkedAt(a); pt != "snapshot.begin" {
+				holderParked = true
+			}
+		}
+		if holderParked && spins > 1500 {
+			return false
+		}
+		runtime.Gosched()
+	}
+	return false
 }
 
 func TestVF_C12(t *testing.T) {
